@@ -89,7 +89,7 @@ def split_rules(m, run, fi, axis, pdim):
     # ---- AX3: helper calls carry the function's direction
     for call in [x for x in walk_no_nested(fi.node) if isinstance(x, ast.Call)]:
         f = call.func
-        is_slot = isinstance(f, ast.Name) and f.id in ('span_func',)
+        is_slot = isinstance(f, ast.Name) and sc.api_origin(f) == 'find_span_func'
         name = ra.helper_name(call)
         if not (is_slot or name):
             continue
@@ -109,7 +109,7 @@ def split_rules(m, run, fi, axis, pdim):
                    'insertion count uses the degree of direction %s' % AXN[axis] if t == {axis} else
                    'insertion count `%s` uses direction %s in the %s-split' % (norm(n.value), fmt(t), AXN[axis]), site(fi, n))
     # ---- AXL: positions in the per-direction lists handed to the insertion function
-    ins = [x for x in walk_no_nested(fi.node) if isinstance(x, ast.Call) and isinstance(x.func, ast.Name) and x.func.id == 'insert_knot_func']
+    ins = [x for x in walk_no_nested(fi.node) if isinstance(x, ast.Call) and isinstance(x.func, ast.Name) and sc.api_origin(x.func) == 'insert_knot_func']
     if len(ins) != 1:
         raise AnalysisError('%s: expected one call of the insertion slot' % fi.key)
     c = ins[0]
